@@ -8,7 +8,8 @@ Sd(cc, code, kind) ==
     [cc |-> cc, code |-> code, kind |-> kind, good |-> "GOOD", lab |-> "LAB", taxto |-> "GOV",
      issuer |-> "GOV", margin |-> FALSE, tre |-> 0, trector |-> FALSE, mkts |-> << >>,
      aw |-> << >>, gift |-> FALSE, extra |-> << >>, late |-> << >>, params |-> << >>,
-     taxable |-> FALSE]    \* TRUE: the user sets IsTaxable on a sector whose class is not taxable by default
+     taxable |-> FALSE,    \* TRUE: the user sets IsTaxable on a sector whose class is not taxable by default
+     zerorate |-> FALSE]   \* TRUE (a TaxFlow): the object-level tax rate is exactly zero (the constructor's default)
 
 Bp(name, countries, sectors, free) ==
     [name |-> name, countries |-> countries, external |-> "none", sectors |-> sectors, free |-> free,
@@ -347,6 +348,16 @@ TAXBUS == [SIMCAP EXCEPT !.name = "TAXBUS", !.free = {3, 4, 5, 7}, !.freeq = {3,
 \* the household has a tax rate of its own (the documented per-sector TaxRate variable), the capitalists have none
 TAXOWN == [SIMCAP EXCEPT !.name = "TAXOWN", !.free = {2, 3, 4, 5}, !.freeq = {2, 4}, !.sectors[2].params = << "TaxRate" >>]
 
+\* ... and the TaxFlow's own rate is zero (the constructor default): only the household's own rate levies anything
+TAXOWN0 == [TAXOWN EXCEPT !.name = "TAXOWN0", !.sectors[5].zerorate = TRUE]
+
+\* aid from A's household to B's household whose amount is declared as a '0.0' placeholder and then given as an
+\* exogenous path (a cross-currency flow of a variable that has no equation when the flows are generated)
+AIDX == [TwoCountry("AIDX") EXCEPT !.freeq = {3, 8}, !.external = "first",
+            !.sectors[2].extra = << "AID" >>,
+            !.flows = << Flow(2, 8, "AID", FALSE, TRUE) >>,
+            !.exo = << Exo(1, "DEM_GOOD"), Exo(7, "DEM_GOOD"), Exo(2, "AID") >>]
+
 \* two sectors that could receive the dividends of the business: ill-formed (refused since fix 49dd591; before it the
 \* first declared one was paid, so the result depended on the declaration order - MC_ModelBuild_asfound2.cfg)
 TWOCAPS == [Bp("TWOCAPS", C1,
@@ -356,6 +367,6 @@ TWOCAPS == [Bp("TWOCAPS", C1,
               Sd("C", "TF", "TaxFlow"), Sd("C", "LAB", "Market"), Sd("C", "GOOD", "Market") >>, {3, 4, 5, 8})
         EXCEPT !.freeq = {4, 5}, !.exo = << Exo(1, "DEM_GOOD") >>, !.wellformed = FALSE]
 
-AllBlueprints == {TWOSUPRULE, NOSUPRULE, FUNDDEP, SIMXG, CASECODES, SIMTRE, IMPORT2, ROWAID, TAXOWN, GOLDCBIMP, SIMINF, SELFBUY, TAXBUS, TWOCAPS, RINGFAN, SIMPLAIN, SIMBOOK, SIMEX1BOOK, PCBOOK, REGBOOK, REG2BOOK, MULTIX, TRIREG, TWOBUSX, RING3, REG2, GOLDCB, TWOBUS, TWOGIFTS, SIMBOND, IMPORTRES, NOEXT3, SIMX, SIMR, SIMEXR, JOIN2, JOIN2X, GOLD2, GOLDNOEXT, SIM, SIMEX, SIMCAP, SIMMARGIN, SIMMON, SIMDEP, PC, MULTI, FED, GIFT, GIFT2, IMPORT, NOEXT1, NOEXT2, NOSUP, TWOSUP}
+AllBlueprints == {TAXOWN0, AIDX, TWOSUPRULE, NOSUPRULE, FUNDDEP, SIMXG, CASECODES, SIMTRE, IMPORT2, ROWAID, TAXOWN, GOLDCBIMP, SIMINF, SELFBUY, TAXBUS, TWOCAPS, RINGFAN, SIMPLAIN, SIMBOOK, SIMEX1BOOK, PCBOOK, REGBOOK, REG2BOOK, MULTIX, TRIREG, TWOBUSX, RING3, REG2, GOLDCB, TWOBUS, TWOGIFTS, SIMBOND, IMPORTRES, NOEXT3, SIMX, SIMR, SIMEXR, JOIN2, JOIN2X, GOLD2, GOLDNOEXT, SIM, SIMEX, SIMCAP, SIMMARGIN, SIMMON, SIMDEP, PC, MULTI, FED, GIFT, GIFT2, IMPORT, NOEXT1, NOEXT2, NOSUP, TWOSUP}
 QuickBlueprints == { [b EXCEPT !.free = b.freeq] : b \in AllBlueprints }
 =============================================================================
